@@ -489,6 +489,7 @@ def run(ctx):
     ctx.rule("R-REG", "decision table of a comparison-only function equals the interval definition on every ordering")
     K.check_block_predicates(ctx, f)
     check_sweeps(ctx, f)
+    check_append(ctx, f)
     check_no_limit_sentinel(ctx, f)
     K.check_bool_table(ctx, f, "R-REG", "ca::provisioning::RequestResourceLimit::is_empty",
                        [(r"^Option::is_none\(self\.asn\)$", "asn"), (r"^Option::is_none\(self\.ipv4\)$", "v4"),
@@ -727,6 +728,40 @@ def check_sweeps(ctx, f):
                where=b.loc, detail=problems[:6] or None)
         if not problems:
             ctx.floor("R-STEP", short_fn + " rounds", rounds, floor)
+
+
+def check_append(ctx, f):
+    """The fast path of OwnedChain::from_iter, round by round (engine/sweep.py AppendSweep)."""
+    from engine import sweep
+    name = "<%sOwnedChain<T> as std::iter::FromIterator<T>>::from_iter" % CH
+    b = f.body(name)
+    if b is None:
+        return ctx.missing("R-STEP", "OwnedChain::from_iter", name)
+    ctx.saw_fn(name)
+    outside = None
+    try:
+        sw = sweep.AppendSweep(f, b, vmax=8 if ctx.tier == "quick" else 10)
+        problems = sw.run()
+        rounds, states = sw.rounds, sw.states
+        hard = [p for p in problems if not p.get("unsupported")]
+        if problems and not hard:
+            outside = problems[0]["problem"]
+        problems = hard
+    except sweep.Unsupported as e:
+        problems, rounds, states, outside = [], 0, 0, str(e)
+    ctx.analysed["paths"] += rounds
+    if outside is not None:
+        ctx.note("R-STEP gives no verdict on OwnedChain::from_iter: %s" % outside[:200])
+        ctx.ob("R-STEP", "OwnedChain::from_iter:rounds", True,
+               "OwnedChain::from_iter: loop state outside the interpreter's vocabulary (%s) — no verdict from this rule" % outside[:120],
+               where=b.loc, nontrivial=False)
+        return
+    ctx.ob("R-STEP", "OwnedChain::from_iter:rounds", not problems,
+           "every round of OwnedChain::from_iter's in-order path either hands the work over unchanged or replaces the tail of "
+           "the result by the canonical form of (last block ∪ next block), and that only for a next block not starting before "
+           "the last: %d abstract states, %d interpreted rounds" % (states, rounds), where=b.loc, detail=problems[:6] or None)
+    if not problems:
+        ctx.floor("R-STEP", "OwnedChain::from_iter rounds", rounds, 2000)
 
 
 # ---------------------------------------------------------------------------------------------
